@@ -1040,6 +1040,14 @@ pub(crate) fn eval_up_to(
     for syn_id in syn_ids.iter().rev() {
         // TODO: this is iterating items twice, which will be slower.
         if let Some(expr) = find_expr_of_id(items, syn_id.id()) {
+            // A parenthesised expression has no evaluation step of
+            // its own (it only schedules the inner expression), so
+            // observe the expression inside the parentheses.
+            let mut expr = expr;
+            while let Expression_::Parentheses(paren) = &expr.expr_ {
+                let inner = paren.expr.as_ref().clone();
+                expr = inner;
+            }
             expr_id = Some(expr.id);
             position = Some(expr.position.clone());
             break;
